@@ -30,6 +30,21 @@ class _NP(NPShim):
             return t
         return super().zeros(shape, dtype)
 
+    def sort(self, a, axis=-1):
+        if not isinstance(a, SymArray):
+            return self._np.sort(a, axis=axis)
+        if a.ndim == 1:
+            return SymArray(core.sort_network(a.cells_list()), a.shape, name="sorted", dtype=a.dtype)
+        if a.ndim == 2 and axis in (1, -1):
+            rows, cols = a.shape
+            flat = a.cells_list()
+            out = []
+            for r in range(rows):
+                row = flat[r * cols:(r + 1) * cols]
+                out += row if not any(core.is_sym(v) for v in row) and list(row) == sorted(row) else core.sort_network(row)
+            return SymArray(out, a.shape, name="sorted", dtype=a.dtype)
+        raise core.EngineError("np.sort along this axis is not modelled")
+
 
 TABLES = []
 
@@ -50,13 +65,41 @@ class StubRandom:
     def __init__(self, eng, n):
         self.eng, self.n, self.k = eng, n, 0
         self.draws = []
+        self.blocks = []
 
-    def integers(self, m):
+    def integers(self, m, size=None):
+        if size is not None:
+            return self._block(m, size)
         self.k += 1
         v = fresh_int(f"rnd{self.k}")
         self.eng.assume_fast(z3.And(v.e >= 0, v.e < lift(m)))
         self.draws.append(v)
         return v
+
+    def _block(self, m, size):
+        """A block of draws (index pairs sampled in advance).  An under-approximation of the generator that makes block BOUNDARIES
+        reachable within a few symbolic iterations: in the first block only the last row is symbolic, in later blocks the first two
+        rows; every other row is the concrete pair (0, 0), which the solve loops skip as a no-op."""
+        shape = (size,) if isinstance(size, int) else tuple(size)
+        rows = shape[0]
+        cols = 1
+        for d in shape[1:]:
+            cols *= d
+        b = len(self.blocks)
+        symbolic = {rows - 1} if b == 0 else {0, 1}
+        cells, rec = [], []
+        for r in range(rows):
+            for c in range(cols):
+                if r in symbolic:
+                    v = fresh_int(f"blk{b}_{r}_{c}")
+                    self.eng.assume_fast(z3.And(v.e >= 0, v.e < lift(m)))
+                    cells.append(v)
+                    rec.append(f"blk{b}_{r}_{c}")
+                else:
+                    cells.append(0)
+                    rec.append(0)
+        self.blocks.append(dict(shape=list(shape), cells=rec))
+        return SymArray(cells, shape, name=f"block{b}", dtype=INT64)
 
     def shuffle(self, x):
         # arbitrary permutation of 0..n-1
@@ -86,7 +129,8 @@ class StubProcess:
 
     def should_terminate(self):
         self.calls += 1
-        return self.calls > self.iters
+        extra = sum(b["shape"][0] for b in self.rnd.blocks[:1])       # the rows of the first block are (almost all) skipped no-ops
+        return self.calls > self.iters + extra
 
     def register(self, x, y):
         n = self.n
@@ -126,7 +170,76 @@ def real_run(algo, D, x0, moves):
     return out
 
 
+def solve_replay(w):
+    """the REAL solve() on a stub process whose generator replays the model's draws (scalar draws and pre-sampled blocks); every
+    registered pair is compared with the true tour length"""
+    import numpy as np
+    import moptipyapps.tsp.ea1p1_revn as ea
+    import moptipyapps.tsp.fea1p1_revn as fea
+    from moptipyapps.tsp.instance import Instance
+    D = w["D"]
+    n = len(D)
+    inst = Instance("t", 0, np.array(D, dtype=np.int64))
+
+    class Stop(Exception):
+        pass
+
+    class Proc:
+        def __init__(self):
+            self.draws = list(w.get("draws") or [v for m_ in w.get("moves", []) for v in m_])
+            self.blocks = [np.array(b["cells"], dtype=np.int64).reshape(b["shape"]) for b in w.get("blocks", [])]
+            self.calls = 0
+            self.reg = []
+
+        def get_random(self):
+            return self
+
+        def integers(self, m, size=None):
+            if size is not None:
+                if self.blocks:
+                    return self.blocks.pop(0)
+                return np.zeros(size, dtype=np.int64)
+            if not self.draws:
+                raise Stop()
+            return int(self.draws.pop(0)) % max(1, int(m))
+
+        def shuffle(self, x):
+            x[:] = np.array(w["x0"], dtype=x.dtype)
+
+        def create(self):
+            return np.empty(n, dtype=np.int64)
+
+        def evaluate(self, x):
+            return int(sum(D[int(x[k - 1])][int(x[k])] for k in range(n)))
+
+        def register(self, x, y):
+            xs = [int(v) for v in x]
+            self.reg.append(dict(tour=xs, value=int(y), true=int(sum(D[xs[k - 1]][xs[k]] for k in range(n)))))
+            return y
+
+        def should_terminate(self):
+            self.calls += 1
+            return self.calls > int(w.get("max_calls", 10 ** 4))
+    proc = Proc()
+    algo = (ea.TSPEA1p1revn if w["algo"] == "ea" else fea.TSPFEA1p1revn)(inst)
+    try:
+        algo.solve(proc)
+    except Stop:
+        pass
+    bad = False
+    prev = None
+    for r in proc.reg:
+        if sorted(r["tour"]) != list(range(n)) or r["value"] != r["true"]:
+            bad = True
+        if w["algo"] == "ea" and prev is not None and r["value"] > prev:
+            bad = True
+        prev = r["value"]
+    return bad, dict(registered=proc.reg[-6:], count=len(proc.reg))
+
+
 def replay(w):
+    if w.get("blocks"):
+        return solve_replay(w)
     res = real_run(w["algo"], w["D"], w["x0"], w["moves"])
     bad = False
     n = len(w["D"])
@@ -218,9 +331,7 @@ def job_loop(algo, n, iters, timeout_s=900, dmax=DMAX):
     A = algos()[algo]
     state = {}
     carried = loop_carried(A["cls"])
-    if carried is None or len(carried) != 1:
-        return inconclusive(f"solve() of {A['cls'].__name__} carries {carried} from one iteration to the next: {iters} iterations from an arbitrary tour do not "
-                            "extend to longer runs when there is loop state besides the running tour length (nothing is claimed for this shape of the code)")
+    no_induction = carried is None or len(carried) != 1
 
     def h(eng):
         del TABLES[:]
@@ -259,6 +370,11 @@ def job_loop(algo, n, iters, timeout_s=900, dmax=DMAX):
         draws = [md.get(f"rnd{k}", 0) for k in range(1, 2 * iters + 3)]
         moves = [[draws[2 * k], draws[2 * k + 1]] for k in range(len(draws) // 2)]
         w = dict(algo=algo, D=D, x0=x0, moves=moves, label=v.label, table_clause=("index in range: h" in v.label or "table index" in v.label))
+        blocks = getattr(state.get("proc"), "rnd", None).blocks if state.get("proc") is not None else []
+        if blocks:
+            w["blocks"] = [dict(shape=b["shape"], cells=[(md.get(c, 0) if isinstance(c, str) else c) for c in b["cells"]]) for b in blocks]
+            w["draws"] = draws
+            w["max_calls"] = state["proc"].calls
         try:
             bad, info = replay(w)
         except Exception as ex:
@@ -271,6 +387,10 @@ def job_loop(algo, n, iters, timeout_s=900, dmax=DMAX):
     reg = sum(v for k, v in eng.outcomes.items() if str(k).startswith("registered") and str(k) != "registered0")
     if not ok or not reg:
         return inconclusive(f"exploration not conclusive {eng.stats()}", **common)
+    if no_induction:
+        return inconclusive(f"solve() of {A['cls'].__name__} carries {carried} from one iteration to the next: the {iters} symbolic iterations explored (across the first "
+                            "block boundary of pre-sampled draws, if any) show no violation, but they do not extend to longer runs when there is loop state besides "
+                            "the running tour length - nothing is claimed for this shape of the code", **common)
     return held(summary=f"{algo} n={n} iterations={iters}: {eng.paths} paths {eng.outcomes}",
                 sample=dict(algo=algo, n=n, iterations=iters, start="arbitrary permutation", moves="arbitrary draws of integers(n-1)"), **common)
 
@@ -313,7 +433,8 @@ def meta(tier):
     return dict(
         bounds=dict(cities="4..6 (seven cities ended in solver timeouts when measured)", iterations="1-3 loop iterations from an arbitrary start permutation (thorough 4)",
                     matrix=f"symmetric, symbolic entries 0..{DMAX}, accepted by the real constructor",
-                    random="integers() returns any value in its range; shuffle() any permutation"),
+                    random="integers() returns any value in its range; shuffle() any permutation; integers(size=...) (draws sampled in blocks): only the rows at the block "
+                           "boundary are symbolic (last row of the first block, first two rows of later ones), the rest is the no-op pair (0, 0) - an under-approximation used to reach refills"),
         outside=["asymmetric instances (the algorithms are documented for symmetric ones)", "more cities / longer runs: the invariant 'y is the length of x, x is a permutation' "
                  "re-established by each iteration from an arbitrary permutation covers runs of any length by induction"],
         assumptions=["the start state of an iteration is any (permutation, exact length) pair: that is what process.evaluate returns for the start tour and what the step re-establishes",
